@@ -265,3 +265,156 @@ Proof.
   - rewrite X1. reflexivity.
   - destruct X1 as [X1 _]. rewrite X1. reflexivity.
 Qed.
+
+(* ---------- calc_trim_text in double-byte mode on well-formed text ---------- *)
+(* every position is the first byte of a character or the second byte of a double one *)
+Lemma classify cs : forall p, 0 <= p < zlen (dbflat cs) ->
+  exists m1 c m2, cs = m1 ++ c :: m2 /\
+    (p = zlen (dbflat m1) \/ (p = zlen (dbflat m1) + 1 /\ exists l t, c = DDouble l t)).
+Proof.
+  induction cs as [|c cs IH]; intros p Hp.
+  - change (zlen (dbflat [])) with 0 in Hp. lia.
+  - change (dbflat (c :: cs)) with (dbbytes c ++ dbflat cs) in Hp. rewrite zlen_app in Hp.
+    pose proof (zlen_dbbytes c) as Hc.
+    destruct (Z.eq_dec p 0) as [->|Hp0].
+    + exists [], c, cs. split; [reflexivity|left; reflexivity].
+    + destruct (Z_lt_le_dec p (zlen (dbbytes c))) as [Hlt|Hge].
+      * (* second byte of c *)
+        destruct c as [b|l t]; [change (zlen (dbbytes (DSingle b))) with 1 in *; lia|].
+        change (zlen (dbbytes (DDouble l t))) with 2 in *.
+        exists [], (DDouble l t), cs. split; [reflexivity|right]. split; [change (zlen (dbflat [])) with 0; lia|].
+        exists l, t. reflexivity.
+      * destruct (IH (p - zlen (dbbytes c)) ltac:(lia)) as (m1 & c' & m2 & E & Hcl).
+        exists (c :: m1), c', m2. split; [rewrite E; reflexivity|].
+        change (dbflat (c :: m1)) with (dbbytes c ++ dbflat m1). rewrite zlen_app.
+        destruct Hcl as [Hcl|[Hcl Hd]]; [left; lia|right; split; [lia|exact Hd]].
+Qed.
+
+Definition dbclass (cs : list dbchar) (p : Z) : Z -> Prop := fun r =>
+  exists m1 c m2, cs = m1 ++ c :: m2 /\
+    ((p = zlen (dbflat m1) /\ r = match c with DSingle _ => 0 | DDouble _ _ => 1 end) \/
+     (p = zlen (dbflat m1) + 1 /\ r = 2 /\ exists l t, c = DDouble l t)).
+
+(* within_double_byte from any boundary at or before p gives the class of p *)
+Lemma wdb_class pre rest p :
+  Forall dbchar_ok (pre ++ rest) -> zlen (dbflat pre) <= p < zlen (dbflat (pre ++ rest)) ->
+  exists r, within_double_byte (dbflat (pre ++ rest)) (zlen (dbflat pre)) p = Ok r /\
+            within_double_byte (dbflat (pre ++ rest)) 0 p = Ok r /\
+            (r = 0 \/ r = 1 \/ r = 2) /\
+            (r = 2 -> exists pre' rest', pre ++ rest = pre' ++ rest' /\ zlen (dbflat pre') = p + 1 /\
+                                         zlen (dbflat pre) < p) /\
+            (r <> 2 -> exists pre' rest', pre ++ rest = pre' ++ rest' /\ zlen (dbflat pre') = p).
+Proof.
+  intros Hok Hp. rewrite dbflat_app, zlen_app in Hp.
+  destruct (classify rest (p - zlen (dbflat pre)) ltac:(lia)) as (m1 & c & m2 & E & Hcl).
+  subst rest.
+  assert (Hok2 : Forall dbchar_ok (m1 ++ c :: m2)) by (apply Forall_app in Hok; tauto).
+  assert (Hok3 : Forall dbchar_ok ((pre ++ m1) ++ c :: m2)) by (rewrite <- app_assoc; exact Hok).
+  pose proof (wdb_exact (dbflat pre) m1 c m2 [] Hok2) as X1. cbn zeta in X1. rewrite app_nil_r in X1.
+  rewrite <- dbflat_app in X1.
+  pose proof (wdb_exact [] (pre ++ m1) c m2 [] Hok3) as X0. cbn zeta in X0.
+  cbn [app] in X0. rewrite app_nil_r in X0. change (zlen (@nil Z)) with 0 in X0.
+  rewrite <- app_assoc in X0. rewrite (dbflat_app pre m1), zlen_app in X0.
+  replace (0 + (zlen (dbflat pre) + zlen (dbflat m1))) with (zlen (dbflat pre) + zlen (dbflat m1)) in X0 by lia.
+  pose proof (zlen_nonneg (dbflat m1)).
+  destruct Hcl as [Hcl|[Hcl (l & t & Hd)]].
+  - replace p with (zlen (dbflat pre) + zlen (dbflat m1)) by lia.
+    destruct c as [b|l t].
+    + exists 0. split; [exact X1|]. split; [exact X0|]. split; [lia|]. split; [lia|]. intros _.
+      exists (pre ++ m1), (DSingle b :: m2). split; [now rewrite <- app_assoc|]. now rewrite dbflat_app, zlen_app.
+    + exists 1. split; [exact (proj1 X1)|]. split; [exact (proj1 X0)|]. split; [lia|]. split; [lia|]. intros _.
+      exists (pre ++ m1), (DDouble l t :: m2). split; [now rewrite <- app_assoc|]. now rewrite dbflat_app, zlen_app.
+  - subst c. replace p with (zlen (dbflat pre) + zlen (dbflat m1) + 1) by lia.
+    exists 2. split; [exact (proj2 X1)|]. split; [exact (proj2 X0)|]. split; [lia|]. split; [|lia]. intros _.
+    exists (pre ++ m1 ++ [DDouble l t]), m2. split; [now rewrite <- !app_assoc|]. split; [|lia].
+    rewrite !dbflat_app, !zlen_app. change (zlen (dbflat [DDouble l t])) with 2. lia.
+Qed.
+
+Section WideTrim.
+Variable wcw : Z -> Z.
+
+Theorem calc_trim_text_wide cs sc ec :
+  Forall dbchar_ok cs -> 0 <= sc < ec -> ec <= zlen (dbflat cs) ->
+  exists sp ep pl pr,
+    calc_trim_text wcw MWide (dbflat cs) 0 (zlen (dbflat cs)) sc ec = Ok (sp, ep, pl, pr) /\
+    pl + (ep - sp) + pr = ec - sc /\ sp = sc + pl /\ (pl = 0 \/ pl = 1) /\ (pr = 0 \/ pr = 1) /\
+    (pl = 1 <-> within_double_byte (dbflat cs) 0 sc = Ok 2) /\
+    (pr = 1 <-> within_double_byte (dbflat cs) 0 ec = Ok 2).
+Proof.
+  intros Hok Hc He. set (T := dbflat cs) in *. set (L := zlen T) in *.
+  (* the class of sc *)
+  destruct (wdb_class [] cs sc Hok ltac:(change (zlen (dbflat [])) with 0; cbn [app]; fold T; fold L; lia))
+    as (r1 & E1 & _ & Hr1 & H12 & H1n). cbn [app] in *. change (zlen (dbflat [])) with 0 in *. fold T in E1.
+  (* the left edge: spos = sc + pl, a boundary *)
+  assert (LEFT : exists pl pre rest,
+     (if 0 <? sc then
+       match calc_text_pos wcw MWide T 0 L sc with Err e_ => Err e_ | Ok (spos_4, sc_5) =>
+       match (if sc_5 <? sc then
+                match calc_text_pos wcw MWide T 0 L (sc + 1) with Err e_ => Err e_ | Ok (spos_7, sc_8) => Ok (1, spos_7) end
+              else Ok (0, spos_4)) with Err e_ => Err e_ | Ok (pad_left_9, spos_10) => Ok (pad_left_9, spos_10) end end
+      else @Ok (Z * Z) (0, 0)) = Ok (pl, sc + pl) /\
+     (pl = 0 \/ pl = 1) /\ (pl = 1 <-> r1 = 2) /\ cs = pre ++ rest /\ zlen (dbflat pre) = sc + pl).
+  { destruct (0 <? sc) eqn:E0.
+    - unfold calc_text_pos. destruct (L <? 0) eqn:E00; [unfold L in *; pose proof (zlen_nonneg T); lia|].
+      destruct (L <=? 0 + sc) eqn:E01; [lia|]. replace (0 + sc) with sc by lia. rewrite E1.
+      destruct (r1 =? 2) eqn:E2.
+      + assert (r1 = 2) by lia. subst r1. destruct (H12 eq_refl) as (pre' & rest' & Ecs & Hpre & _).
+        replace (sc - 1 - 0) with (sc - 1) by lia. destruct (sc - 1 <? sc) eqn:E3; [|lia].
+        destruct (L <=? 0 + (sc + 1)) eqn:E4.
+        * (* the wide character is the last one *)
+          exists 1, pre', rest'. split; [f_equal; f_equal; lia|]. split; [now right|]. split; [tauto|].
+          split; [exact Ecs|exact Hpre].
+        * replace (0 + (sc + 1)) with (sc + 1) by lia.
+          destruct (wdb_class [] cs (sc + 1) Hok ltac:(change (zlen (dbflat [])) with 0; cbn [app]; fold T; fold L; lia))
+            as (r2 & E5 & _ & Hr2 & H22 & _). cbn [app] in *. change (zlen (dbflat [])) with 0 in *. fold T in E5.
+          rewrite E5.
+          assert (r2 <> 2).
+          { intros ->. destruct (H22 eq_refl) as (pre2 & rest2 & Ecs2 & Hpre2 & _).
+            (* sc + 1 is a second half, but it is also a boundary: use exactness at that boundary *)
+            rewrite Ecs in Hok.
+            destruct rest' as [|c' rest''].
+            - rewrite app_nil_r in Ecs. subst pre'. fold T in Hpre. fold L in Hpre. lia.
+            - pose proof (wdb_exact [] pre' c' rest'' [] Hok) as X. cbn zeta in X. cbn [app] in X.
+              rewrite app_nil_r in X. change (zlen (@nil Z)) with 0 in X. rewrite <- Ecs in X. fold T in X.
+              replace (0 + zlen (dbflat pre')) with (sc + 1) in X by lia.
+              destruct c'; [rewrite E5 in X; discriminate|destruct X as [X _]; rewrite E5 in X; discriminate]. }
+          destruct (r2 =? 2) eqn:E6; [lia|].
+          exists 1, pre', rest'. split; [reflexivity|]. split; [now right|]. split; [tauto|].
+          split; [exact Ecs|exact Hpre].
+      + destruct (H1n ltac:(lia)) as (pre' & rest' & Ecs & Hpre).
+        replace (sc - 0) with sc by lia. destruct (sc <? sc) eqn:E3; [lia|].
+        exists 0, pre', rest'. split; [f_equal; f_equal; lia|]. split; [now left|]. split; [lia|].
+        split; [exact Ecs|lia].
+    - assert (sc = 0) by lia. subst sc. exists 0, [], cs. split; [reflexivity|]. split; [now left|].
+      split; [|split; [reflexivity|reflexivity]].
+      split; [lia|]. intros ->. destruct (H12 eq_refl) as (_ & _ & _ & _ & Hlt). lia. }
+  destruct LEFT as (pl & pre & rest & EL & Hpl & Hpl2 & Ecs & Hpre).
+  unfold calc_trim_text, calc_trim_text_gen. fold T. fold L. rewrite EL.
+  assert (Hrun : 0 <= ec - sc - pl) by lia.
+  unfold calc_text_pos. destruct (L <? sc + pl) eqn:E7; [lia|].
+  replace (sc + pl + (ec - sc - pl)) with ec by lia.
+  destruct (L <=? ec) eqn:E8.
+  - (* the range ends at the end of the line *)
+    assert (ec = L) by lia. subst ec.
+    destruct (L - (sc + pl) <? L - sc - pl) eqn:E9; [lia|].
+    exists (sc + pl), L, pl, 0. split; [reflexivity|]. split; [lia|]. split; [reflexivity|]. split; [exact Hpl|].
+    split; [now left|]. split; [rewrite Hpl2; split; [intros ->; exact E1|intros E; rewrite E1 in E; inversion E; reflexivity]|].
+    split; [lia|]. intros E. exfalso.
+    unfold within_double_byte in E. rewrite (wdb_unfold 2) in E. unfold L in E. rewrite get_index_out in E. discriminate.
+  - rewrite Ecs in Hok.
+    destruct (wdb_class pre rest ec Hok ltac:(rewrite <- Ecs; fold T; fold L; lia))
+      as (r3 & E9 & E10 & Hr3 & H32 & H3n). rewrite <- Ecs in E9, E10. fold T in E9, E10. rewrite Hpre in E9.
+    rewrite E9.
+    destruct (r3 =? 2) eqn:E11.
+    + assert (r3 = 2) by lia. subst r3.
+      destruct (ec - 1 - (sc + pl) <? ec - sc - pl) eqn:E12; [|lia].
+      exists (sc + pl), (ec - 1), pl, 1. split; [reflexivity|]. split; [lia|]. split; [reflexivity|]. split; [exact Hpl|].
+      split; [now right|]. split; [rewrite Hpl2; split; [intros ->; exact E1|intros E; rewrite E1 in E; inversion E; reflexivity]|].
+      split; [intros _; exact E10|reflexivity].
+    + destruct (ec - (sc + pl) <? ec - sc - pl) eqn:E12; [lia|].
+      exists (sc + pl), ec, pl, 0. split; [reflexivity|]. split; [lia|]. split; [reflexivity|]. split; [exact Hpl|].
+      split; [now left|]. split; [rewrite Hpl2; split; [intros ->; exact E1|intros E; rewrite E1 in E; inversion E; reflexivity]|].
+      split; [lia|]. intros E. rewrite E10 in E. inversion E. lia.
+Qed.
+
+End WideTrim.
